@@ -22,11 +22,11 @@ pub fn grid_cell(i: usize) -> Cell {
     let r = i % 25;
     let r2 = (i / 25) % 25;
     let extra = EXTRAS[(i / 625) % 5];
-    let follow = ((i / 3125) % 6) as u8;
+    let follow = ((i / 3125) % 7) as u8;
     Cell { r, r2, extra, follow }
 }
 
-pub const GRID: usize = 25 * 25 * 5 * 6;
+pub const GRID: usize = 25 * 25 * 5 * 7;
 
 /// Builds and runs the directed history for one cell (ops chosen while running: the cursor is read back).
 pub fn directed(seed: u64, cell: Cell) -> (Case, Driver, bool) {
@@ -100,6 +100,10 @@ pub fn directed(seed: u64, cell: Cell) -> (Case, Driver, bool) {
             push(&mut case, &mut d, Op::Truncate { q: 1, upto });
         }
         4 => push(&mut case, &mut d, Op::Restart { policy: None }),
+        6 => {
+            // a multi-block entry that the torn-tail variant (run_c07) crashes in the middle of
+            push(&mut case, &mut d, Op::Append { q: 1, pos: None, lens: vec![(BLOCK + 2000 + rng.usize_below(2 * BLOCK)) as u32], uid });
+        }
         _ => {
             push(&mut case, &mut d, Op::Restart { policy: None });
             push(&mut case, &mut d, Op::Append { q: 1, pos: None, lens: vec![rng.below(3000) as u32], uid });
